@@ -249,10 +249,16 @@ impl Channel {
 
         chan.busy = false;
         chan.transmission_finish_time = SimTime::ZERO;
+        drop(chan);
 
-        if let Some((msg, next_gate)) = chan.buffer.dequeue() {
-            drop(chan);
-            self.send_message(msg, next_gate, sink);
+        // A message with a transmission time of zero does not mark the channel
+        // as busy (and thus will not trigger another unbusy notification), so
+        // continue with the queued messages until the channel is busy again.
+        while !self.is_busy() {
+            let Some((msg, next_gate)) = self.inner.write().unwrap().buffer.dequeue() else {
+                break;
+            };
+            self.clone().send_message(msg, next_gate, sink);
         }
     }
 }
